@@ -82,7 +82,8 @@ STD_ENUMS = {
     # `TimeRange { None, Some(RangeInclusive) }` is the model's `Option (first, last)`
     "TimeRange": ("Option", {"None": ("none", 0), "Some": ("some", 1)}),
 }
-MUTSELF_TARGETS = {("TimeRange", "update"), ("DownSampledData", "process"), ("Sampler", "process"), ("ByteSeries", "push_line")}
+MUTSELF_TARGETS = {("TimeRange", "update"), ("DownSampledData", "process"), ("Sampler", "process"), ("ByteSeries", "push_line"),
+                   ("Index", "update"), ("Data", "push_data")}
 # `for x in &mut self.<field>` over the boxed caches: the body is translated ONCE (one cache level), calls on the
 # loop variable become actions
 FOR_EACH_ONCE = {("ByteSeries", "downsampled"): "dynDownSampled"}
@@ -98,7 +99,7 @@ RESAMPLER_CALLS = {
     ("resample_state", "add"): ("state_add", None, None),
     ("resample_state", "finish"): ("state_finish", None, "u64"),
 }
-ERROR_ENUMS = {"Error"}          # variants become `Fault.err "<Variant>"`
+ERROR_ENUMS = {"Error", "PushError"}          # variants become `Fault.err "<Variant>"`
 
 # trivial getters: (type, method) -> field; the Rust body must be literally `self.<field>`
 GETTERS = {
@@ -124,7 +125,14 @@ EFFECT_METHODS = {
     ("dynDownSampled", "process"): ("(CatchUp.cache {0} {1})", False),
 }
 EFFECT_FIELDS = {("DownSampledData", "lines_to_skip"): "(CatchUp.skip {0})"}
-TRACE_TARGETS = {(None, "add_missing_data"), ("DownSampledData", "process"), ("Sampler", "process"), ("ByteSeries", "push_line")}
+TRACE_TARGETS = {(None, "add_missing_data"), ("DownSampledData", "process"), ("Sampler", "process"), ("ByteSeries", "push_line"),
+                 ("Index", "update"), ("Data", "push_data")}
+# the write path: the trace is the list of `write_all` calls on the two files, in order (type `IoW` of GenPrelude.lean)
+TRACE_TYPE = {("Index", "update"): "IoW", ("Data", "push_data"): "IoW"}
+# `self.<field>.write_all(x)` / `self.<field>.<file>.write_all(x)` -> action
+WRITE_FIELDS = {("Index", ("file",)): "(IoW.indexWrite {0})", ("Data", ("file_handle",)): "(IoW.dataWrite {0})"}
+# a translated function with a write sink called with a field of self as the sink
+SINK_FIELDS = {("Data", "file_handle"): "(IoW.dataWrite {0})"}
 SKIP_PARAMS = {"corruption_callback"}
 
 # (file, impl type or None, fn, extra parameters appended to the Lean signature)
@@ -163,6 +171,8 @@ TARGETS = [
     ("src/series/downsample.rs", "DownSampledData", "process", None),
     ("src/series/data/inline_meta.rs", "Sampler", "process", None),
     ("src/series.rs", "ByteSeries", "push_line", None),
+    ("src/series/data/index.rs", "Index", "update", None),
+    ("src/series/data.rs", "Data", "push_data", None),
 ]
 
 LEAN_KEYWORDS = {"end", "at", "from", "open", "section", "then", "do", "fun", "in", "have", "show", "where",
@@ -678,6 +688,17 @@ class Tr:
         return Val(sa + sb, f"(Rs.idx {ta} {tb})", "mon", norm_type(elem))
 
     def tr_try(self, e):
+        x = e[1]
+        # `X.map(Ok).unwrap_or_else(|| { ..; Ok(v) })?`  is  `match X { Some(a) => a, None => { ..; v } }`: the closure's
+        # own `?`s leave the function with the same error the outer `?` would
+        if x[0] == "mcall" and x[2] == "unwrap_or_else" and x[1][0] == "mcall" and x[1][2] == "map" \
+           and x[1][3] == [("path", ["Ok"])] and x[3] and x[3][0][0] == "closure" and not x[3][0][1]:
+            body = x[3][0][2]
+            if body[0] != "block" or body[2] is None or body[2][0] != "call" or body[2][1] != ("path", ["Ok"]):
+                raise Unsupported("unwrap_or_else closure that does not end in Ok(..)")
+            nb = ("block", body[1], body[2][2][0])
+            return self.tr(("match", x[1][1], [([("ptstruct", ["Some"], [("pbind", "some_v", False)])], None, ("path", ["some_v"])),
+                                               ([("ppath", ["None"])], None, nb)]))
         v = self.tr(e[1])
         if v.kind == "mon_unit":
             return v
@@ -788,6 +809,8 @@ class Tr:
         saved = dict(self.scope)
         self.scope[p[1]] = arg_ty
         body = c[2]
+        while body[0] == "block" and not body[1] and body[2] is not None:
+            body = body[2]
         v = self.tr(body)
         self.scope = saved
         return mangle(p[1]), v
@@ -883,12 +906,26 @@ class Tr:
         if recv is not None:
             s, t = self.atom(recv)
             st += s; ts.append(t)
-        for a in args:
+        sink_action = None
+        cparams = [p for p in self.w.fns[key][1] if p[0] != "self"] if key in self.w.fns else []
+        for k, a in enumerate(args):
+            if k < len(cparams) and is_sink(norm_type(cparams[k][1], key[0])):
+                x = a
+                while x[0] in ("ref", "paren"):
+                    x = x[-1]
+                if not (self.trace and x[0] == "field" and x[1] == ("path", ["self"]) and (self.impl, x[2]) in SINK_FIELDS):
+                    raise Unsupported("a write sink that is not a file of self: " + repr(a)[:80])
+                sink_action = SINK_FIELDS[(self.impl, x[2])]
+                continue
             s, t, _v = self.atom_of(a)
             st += s; ts.append(t)
         ret = norm_type(rty, key[0]) if rty else "()"
         if ret.startswith("Result<"):
             ret = generic_arg(ret, "Result")
+        if sink_action:
+            t = self.fresh()
+            call = "(" + lean_name(*key) + "".join(" " + x for x in ts) + ")"
+            return Val(st + [("letm", t, call), ("assign", "trace_", f"trace_ ++ [{sink_action.format(t + '.1')}]")], f"(pure {t}.2)", "mon", ret)
         return Val(st, "(" + lean_name(*key) + "".join(" " + x for x in ts) + ")", "mon", ret)
 
     def tr_mcall(self, e):
@@ -903,9 +940,39 @@ class Tr:
             return self.copy_from_slice(recv_e, args[0])
         if name == "map_err":
             return self.tr(recv_e)                      # only the error's wrapping changes
+        if name == "and_then" and args and args[0][0] == "closure" and len(args[0][1]) == 1:
+            return self.tr(("match", recv_e, [([("ptstruct", ["Some"], [args[0][1][0]])], None, args[0][2]),
+                                              ([("ppath", ["None"])], None, ("path", ["None"]))]))
+        if name == "transpose":
+            v = self.tr(recv_e)                          # Option<Result<T>>: the monad already carries the Result
+            if v.kind != "mon" or not (v.ty or "").startswith("Option<"):
+                raise Unsupported("transpose of something that is not Option<Result<..>> here")
+            return v
+        if name == "to_le_bytes":
+            v = self.tr(recv_e)
+            if v.ty in ("u64", "Timestamp"):
+                s_, t_ = self.atom(v)
+                return Val(s_, f"(BS.leN 8 {t_})", "pure", "[u8]")
+            if v.ty == "u16":
+                s_, t_ = self.atom(v)
+                return Val(s_, f"(BS.le2 {t_})", "pure", "[u8]")
+        if name == "write_all" and self.trace:
+            chain, r = [], recv_e
+            while r[0] == "field":
+                chain.insert(0, r[2]); r = r[1]
+            if r == ("path", ["self"]) and (self.impl, tuple(chain)) in WRITE_FIELDS:
+                sx, tx, vx = self.atom_of(args[0])
+                if not is_bytes(vx.ty):
+                    raise Unsupported("write_all of something that is not a byte slice")
+                return Val(sx + [("assign", "trace_", f"trace_ ++ [{WRITE_FIELDS[(self.impl, tuple(chain))].format(tx)}]")], "()", "mon_unit")
         if recv_e[0] == "field" and recv_e[1] == ("path", ["self"]):
             if (self.impl, recv_e[2]) in IGNORED_FIELDS:
                 return Val([], "()", "unit")
+            if self.mutself and name == "push" and self.impl in STRUCTS and recv_e[2] in STRUCTS[self.impl][1] \
+               and (self.field_type(self.impl, recv_e[2]) or "").startswith("Vec<") and (self.impl, recv_e[2]) not in EFFECT_FIELD_PUSH:
+                fld = STRUCTS[self.impl][1][recv_e[2]]
+                sx, tx, _ = self.atom_of(args[0])
+                return Val(sx + [("assign", "self", "{ self with " + fld + " := self." + fld + " ++ [" + tx + "] }")], "()", "mon_unit")
             if self.trace and name == "push" and (self.impl, recv_e[2]) in EFFECT_FIELD_PUSH:
                 sx, tx, _ = self.atom_of(args[0])
                 return Val(sx + [("assign", "trace_", f"trace_ ++ [{EFFECT_FIELD_PUSH[(self.impl, recv_e[2])].format(tx)}]")], "()", "mon_unit")
@@ -958,16 +1025,26 @@ class Tr:
             return Val(st + [("assign", "trace_", f"trace_ ++ [{tmpl.format(*ts)}]")], "()", "mon_unit")
         recv = self.tr(recv_e)
         ty = recv.ty
-        if self.mutself and (ty, name) in MUTSELF_TARGETS and (ty, name) in self.generated \
-           and recv_e[0] == "field" and recv_e[1] == ("path", ["self"]) and self.impl in STRUCTS:
+        if self.mutself and (ty, name) in MUTSELF_TARGETS and ((ty, name) in self.generated or self.ensure_helper((ty, name))) \
+           and recv_e[0] == "field" and recv_e[1] == ("path", ["self"]) and self.impl in STRUCTS \
+           and not (self.trace and (ty, name) in EFFECT_METHODS):
             fld = STRUCTS[self.impl][1][recv_e[2]]
             st, ts = list(recv.stmts), []
             for a in args:
                 s_, t_, _v = self.atom_of(a)
                 st += s_; ts.append(t_)
             t = self.fresh()
-            call = "(" + lean_name(ty, name) + " self." + fld + "".join(" " + x for x in ts) + ")"
-            return Val(st + [("letm", t, call), ("assign", "self", "{ self with " + fld + " := " + t + ".1 }")], "()", "mon_unit")
+            rcv = "(Rs.indexOf self)" if fld == "@index" else "self." + fld
+            call = "(" + lean_name(ty, name) + " " + rcv + "".join(" " + x for x in ts) + ")"
+            new_self = t + ".1"
+            more = []
+            if (ty, name) in TRACE_TARGETS:
+                if not self.trace or TRACE_TYPE.get((ty, name), "CatchUp") != TRACE_TYPE.get((self.impl, self.fn_name), "CatchUp"):
+                    raise Unsupported("a callee with actions of another kind")
+                new_self = t + ".1.1"
+                more = [("assign", "trace_", f"trace_ ++ {t}.1.2")]
+            upd = f"(Rs.withIndex self {new_self})" if fld == "@index" else "{ self with " + fld + " := " + new_self + " }"
+            return Val(st + [("letm", t, call), ("assign", "self", upd)] + more, "()", "mon_unit")
         if self.trace and (ty, name) in EFFECT_METHODS:
             tmpl, final = EFFECT_METHODS[(ty, name)]
             if final:
@@ -1013,7 +1090,7 @@ class Tr:
         if is_opt and name == "map":
             pn, body = self.closure1(args[0], generic_arg(ty, "Option"))
             if body.kind not in ("pure", "mon"):
-                raise Unsupported("closure body too complex")
+                raise Unsupported("closure body too complex: kind " + body.kind)
             if body.stmts:
                 parts = []
                 for it in body.stmts:
@@ -1022,7 +1099,7 @@ class Tr:
                     elif it[0] == "letp":
                         parts.append(f"let {it[1]} := {it[2]}")
                     else:
-                        raise Unsupported("closure body too complex")
+                        raise Unsupported("closure body too complex: " + repr(it)[:200])
                 parts.append(body.term if body.kind == "mon" else f"pure {body.term}")
                 return Val(s, f"(Option.mapM (fun {pn} => do " + "; ".join(parts) + f") {t})", "mon", f"Option<{body.ty}>")
             if body.kind == "pure":
@@ -1061,10 +1138,13 @@ class Tr:
         self.last_ty = None
         then = self.seq(e[2], "value")
         ty = self.last_ty
+        self.last_ty = None
         els = self.seq(e[3], "value") if e[3] else None
         if els is None:
             raise Unsupported("if without else used as a value")
-        return Val(st, ("if", c, then, els), "code", ty or self.last_ty)
+        if ty is None or ("?" in ty and self.last_ty is not None):
+            ty = self.last_ty
+        return Val(st, ("if", c, then, els), "code", ty)
 
     def tr_match(self, e, mode="value"):
         s, t, v = self.atom_of(e[1])
@@ -1522,7 +1602,7 @@ def translate_one(w, generated, impl, fn, extra):
     sig = []
     pre = []
     if tr.trace:
-        pre.append(("letmutp", "trace_", "([] : List CatchUp)"))
+        pre.append(("letmutp", "trace_", f"([] : List {TRACE_TYPE.get((impl, fn), 'CatchUp')})"))
     if tr.mutself:
         pre.append(("letmutp", "self", "self"))
     for p in params:
@@ -1542,9 +1622,9 @@ def translate_one(w, generated, impl, fn, extra):
     sq = tr.seq(body, "value")
     if tr.sink:
         if tr.trace and tr.mutself:
-            rty = f"(({lean_type(impl)} × List CatchUp) × {rty})"
+            rty = f"(({lean_type(impl)} × List {TRACE_TYPE.get((impl, fn), 'CatchUp')}) × {rty})"
         elif tr.trace:
-            rty = f"(List CatchUp × {rty})"
+            rty = f"(List {TRACE_TYPE.get((impl, fn), 'CatchUp')} × {rty})"
         elif tr.mutself:
             rty = f"({lean_type(impl)} × {rty})"
         else:
